@@ -216,7 +216,7 @@ static int do_spawn(int parent, int child)
         case V_FORK:                     rc = qthread_fork(body, arg, r); break;
         case V_FORK_TO:                  rc = qthread_fork_to(body, arg, r, tgt); break;
         case V_COPYARGS:                 rc = qthread_fork_copyargs(body, arg, asz, r); break;
-        case V_COPYARGS_TO:              rc = qthread_fork_copyargs_to(body, arg, asz, (syncvar_t *)r, tgt); break; /* the code treats ret as an aligned_t FEB (flags 0) */
+        case V_COPYARGS_TO:              rc = qthread_fork_copyargs_to(body, arg, asz, (syncvar_t *)r, tgt); break; /* a syncvar location since /repo f9ee21a (the ret kind used for joining comes from the generated table) */
         case V_SYNCVAR:                  rc = qthread_fork_syncvar(body, arg, sr); break;
         case V_SYNCVAR_TO:               rc = qthread_fork_syncvar_to(body, arg, sr, tgt); break;
         case V_SYNCVAR_COPYARGS:         rc = qthread_fork_syncvar_copyargs(body, arg, asz, sr); break;
